@@ -21,6 +21,20 @@ def fmt_cases():
     # bound values are shown, through chains
     rules = [rule(cplx("go", X), AND(U(Y, X), U(Z, Y), PRINT(atom("<%s|%s>"), Z, X), NL, bip("print_list", lst([X, i(2)], T), Y), U(T, lst([i(5)]))))]
     out.append((single_query_case(rules, [atom("go"), i(4)], 2), "print-bound"))
+    # print_list: unbound and bound variables as arguments and as elements, tail variables bound to lists / unbound / $_,
+    # several arguments, arguments that are not lists, the empty list
+    L = lst([i(5), i(6)])
+    pl = lambda *a: bip("print_list", *a)
+    for body in (pl(X), AND(U(X, L), pl(X)), AND(U(T, L), pl(lst([X, i(2)], T))), AND(U(T, L), U(X, atom("a")), pl(lst([X], T))),
+                 pl(lst([i(1), i(2)], T)), pl(lst([i(1)], ANON)), pl(EMPTY), pl(atom("a")), pl(i(3), lst([i(1)])), pl(lst([i(1)]), lst([i(2), i(3)])),
+                 pl(lst([lst([i(1)]), EMPTY])), AND(U(T, EMPTY), pl(lst([i(1)], T))), AND(U(X, Y), U(Y, lst([atom("q")])), pl(X, Y)),
+                 pl(cplx("f", X)), AND(U(T, lst([i(7)], Z)), U(Z, lst([i(8)])), pl(lst([i(1)], T)))):
+        out.append((single_query_case([rule(cplx("go", X), body)], [atom("go"), var(0, "$Q")], 2), "print-list"))
+    # time(G): G's first answer only, then the elapsed time is written
+    for g in (C("n", X), AND(C("n", X), C("e", X)), FAIL, OR(U(X, i(1)), U(X, i(2))), PRINT(atom("in;")), AND(C("n", X), PRINT(atom("%s;"), X), FAIL)):
+        tg = op("time", g)
+        for body in (tg, AND(tg, PRINT(atom("after %s;"), X)), AND(C("e", Y), tg), OR(tg, U(X, i(9))), NOT(tg), AND(tg, tg)):
+            out.append((single_query_case(list(LIB) + [rule(cplx("go", X), body)], [atom("go"), var(0, "$Q")], 4), "time-shape"))
     return out
 
 def cases(tier, rng):
@@ -45,7 +59,8 @@ def cases(tier, rng):
 
 RULE = ("(a) print with 12 format strings (no / one / several / adjacent / trailing %s markers, a lone %, %S) x 5 argument lists "
         "(none, fewer, equal, more arguments than markers; lists and complex terms), and print / nl / print_list of values bound "
-        "through variable chains; (b) all bodies of 1-3 goals over a 10-goal alphabet that contain a print (quick: half), also "
+        "through variable chains; print_list with unbound / bound variables as arguments and elements, tail variables bound to lists, "
+        "several arguments, non-list arguments; time(G) for 6 goals G in 6 positions (first answer only, elapsed text normalised); (b) all bodies of 1-3 goals over a 10-goal alphabet that contain a print (quick: half), also "
         "under a disjunction and below a multi-answer goal through solve_all; (c) disjunctions whose first alternative prints, cuts and then fails or succeeds, followed by an alternative that prints; (d) random programs containing print, with cut, "
         "not, disjunctions. Oracle: the text written during each request equals what the reference search writes between the "
         "corresponding answers (so every retry prints again, nothing is printed twice or out of order), and nothing is written "
